@@ -53,7 +53,7 @@ PROPERTIES = {
         'assumptions': ['join is checked for up to 2/3 arguments'],
     },
     'C08': {
-        'groups': ['G2', 'A1', 'F3', 'F2', 'M2', 'V5', 'V3', 'X7', 'A2', 'G3', 'Z1', 'Z2', 'X4p'],
+        'groups': ['G2', 'A1', 'F3', 'F2', 'M2', 'V5', 'V3', 'X7', 'A2', 'G3', 'Z1', 'Z2', 'X4p', 'W3', 'R4'],
         'level': 'other',
         'explanation': 'C08 is the frame / freshness clause of every contract: __getitem__ leaves the source untouched and shares no '
                        'container with it; += leaves its right operand untouched; apply/remove_formatting leave the settings argument '
